@@ -1,19 +1,21 @@
 import Slock.Proofs.ValueOps
 import Slock.Proofs.ValuePanic
+import Slock.Proofs.ValuePipeline
 /-!
 C15 (value part): while a key is held, its value behaves as a single register updated by each value operation.
 
-Model: `Slock.Value.processFrame` (= `NewLockCommandDataFromOriginBytes` + `LockManager.ProcessLockData`).
+Model: `Slock.Value.processFrame` (= `ProcessParseLockData` + `LockManager.ProcessLockData`, repaired tree).
 Spec: `Slock.Value.specApply` on `Val = none | bytes | array` (a number is its 8-byte little-endian image, `Val.num`).
 `encode f` is the canonical frame `[len32 | op | flag | (proplen16 props)? | payload]` of `f : Frm`; `f.WF` says the op code is
 < 64 (stage CURRENT), the property flag matches the presence of a header and the header is < 64 KiB. `CellWF` = no cell, the UNSET
 marker, or a canonical image with a correct length prefix (array-flagged images hold an exact list of NON-EMPTY elements).
 `gate cx (mkCmd f) = true` = the stage / first-or-last gate lets the frame through.
 
-Full statement wanted (for every op, every WF cell, every WF frame):
-    processFrame cx cur (encode f) = .ok cur' ∧ CellWF cur' ∧ absCell cur' = specApply (absCell cur) (opOf f)
-The unchanged code violates it in the ways listed as `…_counterexample` below; each `…_refines` theorem keeps exactly the
-hypotheses that exclude them (and is conditional on the call returning, crash-freedom being C13's subject).
+For every op, every WF cell, every WF frame:  `processFrame cx cur (encode f) = .ok cur'` (it always returns:
+`processFrame_returns`)  →  `CellWF cur' ∧ absCell cur' = specApply (absCell cur) (opOf f)`.
+Remaining hypotheses are typing conditions of the register (INCR/APPEND/SHIFT act on scalars, SET-array payloads are element
+lists) and the two recorded findings: zero-length array elements (`pop_zero_length_element_counterexample`) and PIPELINE
+with more than one sub-frame (`pipeline_not_sequential_counterexample`).
 -/
 namespace Slock.C15V
 open Slock.Value
@@ -29,15 +31,13 @@ theorem unset_refines (cx : Ctx) (cur : Option Cell) (f : Frm) (hcur : CellWF cu
     CellWF cur' ∧ absCell cur' = specApply (absCell cur) .unset :=
   Slock.Value.unset_refines cx cur f hcur hf hop hg cur' h
 
-/-- INCR: operand of any length (first ≤ 8 bytes, zero-extended), wrap-around modulo 2^64, with or without property header.
-    Excluded: array cells / array-flagged operands (type error), and — the defect — a non-8-byte operand on a cell that has a
-    property header (`incr_short_operand_props_counterexample`). -/
+/-- INCR: operand of any length (first ≤ 8 bytes, zero-extended), wrap-around modulo 2^64, with or without property header on
+    the operand and on the cell, on a key with or without value.  (Array cells / array-flagged operands are type errors.) -/
 theorem incr_refines (cx : Ctx) (cur : Option Cell) (f : Frm) (hcur : CellWF cur) (hf : f.WF) (hop : f.op = INCR)
     (hfa : hasFlag f.flag fARRAY = false) (hna : (absCell cur).isArr = false)
-    (hex : f.payload.length = 8 ∨ cellHasProps cur = false)
     (hg : gate cx (mkCmd f) = true) (cur' : Option Cell) (h : processFrame cx cur (encode f) = .ok cur') :
     CellWF cur' ∧ absCell cur' = specApply (absCell cur) (.incr f.payload) :=
-  Slock.Value.incr_refines cx cur f hcur hf hop hfa hna hex hg cur' h
+  Slock.Value.incr_refines cx cur f hcur hf hop hfa hna hg cur' h
 
 theorem append_refines (cx : Ctx) (cur : Option Cell) (f : Frm) (hcur : CellWF cur) (hf : f.WF) (hop : f.op = APPEND)
     (hfa : hasFlag f.flag fARRAY = false) (hna : (absCell cur).isArr = false)
@@ -45,8 +45,7 @@ theorem append_refines (cx : Ctx) (cur : Option Cell) (f : Frm) (hcur : CellWF c
     CellWF cur' ∧ absCell cur' = specApply (absCell cur) (.append f.payload) :=
   Slock.Value.append_refines cx cur f hcur hf hop hfa hna hg cur' h
 
-/-- SHIFT by any count (`f.count` = first ≤ 4 payload bytes). When the call returns the value is `drop n`; for counts beyond
-    the value length it does NOT return (`shift_beyond_length_counterexample`). -/
+/-- SHIFT by any count (`f.count` = first ≤ 4 payload bytes), beyond the value length included: the value is `drop n`. -/
 theorem shift_refines (cx : Ctx) (cur : Option Cell) (f : Frm) (hcur : CellWF cur) (hf : f.WF) (hop : f.op = SHIFT)
     (hna : (absCell cur).isArr = false)
     (hg : gate cx (mkCmd f) = true) (cur' : Option Cell) (h : processFrame cx cur (encode f) = .ok cur') :
@@ -54,7 +53,7 @@ theorem shift_refines (cx : Ctx) (cur : Option Cell) (f : Frm) (hcur : CellWF cu
   Slock.Value.shift_refines cx cur f hcur hf hop hna hg cur' h
 
 /-- PUSH of a non-empty element onto anything (a non-array value is replaced by a one-element array).
-    Excluded: the zero-length element (`pop_zero_length_element_counterexample`). -/
+    Excluded: the zero-length element (`pop_zero_length_element_counterexample`, recorded finding). -/
 theorem push_refines (cx : Ctx) (cur : Option Cell) (f : Frm) (hcur : CellWF cur) (hf : f.WF) (hop : f.op = PUSH)
     (hb : 0 < f.payload.length ∧ f.payload.length < 2 ^ 32)
     (hg : gate cx (mkCmd f) = true) (cur' : Option Cell) (h : processFrame cx cur (encode f) = .ok cur') :
@@ -67,41 +66,60 @@ theorem pop_refines (cx : Ctx) (cur : Option Cell) (f : Frm) (hcur : CellWF cur)
     CellWF cur' ∧ absCell cur' = specApply (absCell cur) (.pop f.count) :=
   Slock.Value.pop_refines cx cur f hcur hf hop hg cur' h
 
+/-- The `.ok` hypothesis above is always met: on a well-formed cell EVERY byte string returns (no panic). -/
+theorem processFrame_returns (cx : Ctx) (cur : Option Cell) (frame : Bytes) (hcur : CellWF cur) :
+    ∃ cur', processFrame cx cur frame = .ok cur' := by
+  obtain ⟨c, h, _⟩ := processFrame_good cx cur frame (cellWF_sane cur hcur)
+  exact ⟨c, h⟩
+
 /-- A frame the stage / first-or-last gate refuses leaves the cell unchanged — every op code, PIPELINE included. -/
 theorem refused_unchanged (cx : Ctx) (cur : Option Cell) (f : Frm) (hf : f.WF) (hg : gate cx (mkCmd f) = false) :
     processFrame cx cur (encode f) = .ok cur :=
   Slock.Value.processFrame_refused cx cur f hf hg
+
+/-- A frame the PARSER refuses (any bytes) leaves the cell unchanged. -/
+theorem parser_refused_unchanged (cx : Ctx) (cur : Option Cell) (frame : Bytes) (h : parseFrame frame [] = none) :
+    processFrame cx cur frame = .ok cur := by
+  simp [processFrame, h, pure, Except.pure]
 
 /-- The reply value (`GetLockData`) of a well-formed cell is a frame whose length prefix is its length − 4. -/
 theorem wf_cell_len_prefix (c : Cell) (h : CellWF (some c)) : lenPrefixOK c = true :=
   Slock.Value.cellWF_lenPrefixOK c h
 
 /-
-PIPELINE. Wanted: `absCell cur' = specRun (absCell cur) (ops of the sub-frames)`.  FALSE for the unchanged code
-(`pipeline_not_sequential_counterexample`): before every non-EXECUTE sub-frame the cell is reset to the pre-pipeline cell.
-`pipeline_partial` below covers the empty pipeline only; missing: the one-sub-frame case (provable: the reset is then the
-identity — not done for lack of time) — longer pipelines are false.
+PIPELINE. Wanted: `absCell cur' = specRun (absCell cur) (ops of the sub-frames)`.  FALSE for the code
+(`pipeline_not_sequential_counterexample`, recorded finding): before every non-EXECUTE sub-frame the cell is reset to the
+pre-pipeline cell.  Proved instead (`pipeline_partial`): a PIPELINE holding ONE non-PIPELINE sub-frame `s` returns exactly
+what `s` alone returns, up to `pipeFinish` (which only sets the persisted flag) — so value and well-formedness are those of
+the seven `…_refines` theorems; and the empty PIPELINE changes nothing (`pipeline_empty`).  Missing: nested pipelines as
+the single sub-frame; two or more sub-frames are false.
 -/
-theorem pipeline_partial (cx : Ctx) (cur : Option Cell) (fl : UInt8) (hfl : hasFlag fl fFIRSTLAST = false)
+theorem pipeline_partial (cx : Ctx) (cur : Option Cell) (fl : UInt8) (s : Frm) (hs : s.WF) (hsp : s.op ≠ PIPELINE)
+    (hfl : hasFlag fl fFIRSTLAST = false) (hp : hasFlag fl fPROP = false)
+    (hlen : 2 + s.hdrLen + s.payload.length < 2 ^ 32) (r : Option Cell) (h : processFrame cx cur (encode s) = .ok r) :
+    processFrame cx cur (encode (pipe1 fl s)) = .ok (pipeFinish cur r)
+    ∧ absCell (pipeFinish cur r) = absCell r ∧ (CellWF r → CellWF (pipeFinish cur r)) := by
+  refine ⟨?_, absCell_pipeFinish cur r, cellWF_pipeFinish cur r⟩
+  rw [pipeline_single cx cur fl s hs hsp hfl hp hlen, h]; rfl
+
+theorem pipeline_empty (cx : Ctx) (cur : Option Cell) (fl : UInt8) (hfl : hasFlag fl fFIRSTLAST = false)
     (hp : hasFlag fl fPROP = false) :
     okVal (processFrame cx cur (encode ⟨PIPELINE, fl, none, []⟩)) = some (specRun (absCell cur) []) := by
   have hf : (⟨PIPELINE, fl, none, []⟩ : Frm).WF := ⟨by show PIPELINE < 64; decide, by simpa using hp, by intro p h; cases h⟩
   have hg := gate_mkCmd cx ⟨PIPELINE, fl, none, []⟩ hfl
-  have hoff := cmdOff_mkCmd _ hf
+  have hoff : cmdOff (mkCmd ⟨PIPELINE, fl, none, []⟩) = .ok 6 := by
+    have := cmdOff_mkCmd _ hf; simpa [Frm.hdrLen, propHdr] using this
   have hlen : (mkCmd ⟨PIPELINE, fl, none, []⟩).data.length = 6 := by simp [mkCmd, encode_length, Frm.hdrLen, propHdr]
   have hdrop : (mkCmd ⟨PIPELINE, fl, none, []⟩).data.drop 6 = [] := by
     apply List.drop_eq_nil_of_le; omega
-  simp only [processFrame, fromOriginBytes_encode _ hf, bind, Except.bind, proc, hg, Bool.not_true, Bool.false_eq_true, if_false,
-    show (mkCmd ⟨PIPELINE, fl, none, []⟩).ctype = PIPELINE from rfl, if_true, hoff, Frm.hdrLen, propHdr, List.length_nil, Nat.add_zero,
-    hlen, Nat.lt_irrefl, hdrop, pipeLoop, pure, Except.pure, okVal, specRun, List.foldl_nil]
-  cases cur with
-  | none => rfl
-  | some k =>
-    simp only [pipeFinish]
-    split <;> simp [absCell, Cell.hasData, Cell.isArray]
+  have hP : processFrame cx cur (encode ⟨PIPELINE, fl, none, []⟩)
+      = proc ((encode ⟨PIPELINE, fl, none, []⟩).length + 1) cx cur (mkCmd ⟨PIPELINE, fl, none, []⟩) := by
+    simp only [processFrame, parseFrame_encode _ hf]
+  rw [hP, proc_pipeline _ cx cur _ hg rfl 6 hoff (by omega), hdrop, pipeLoop_nil]
+  simp only [bind, Except.bind, pure, Except.pure, okVal, specRun, List.foldl_nil, absCell_pipeFinish]
 
-/-! ### counterexamples on the unchanged code (executable model, `decide`; the same inputs are replayed on the real code by
-the harness monitors) -/
+/-! ### recorded findings: counterexamples on the code (executable model, `decide`; replayed on the real code by the
+harness monitors `value-mismatch:PIPELINE` and `value-mismatch:POP-zero-length-element`) -/
 
 /-- On value "x", PIPELINE[SET "a", APPEND "b"] leaves "xb"; the sequential interpreter says "ab". -/
 theorem pipeline_not_sequential_counterexample :
@@ -109,23 +127,32 @@ theorem pipeline_not_sequential_counterexample :
     ∧ specRun .none [.set false [0x78], .set false [0x61], .append [0x62]] = .bytes [0x61, 0x62] := by
   decide
 
-/-- INCR with a 1-byte operand on a cell with a property header: the value is right, but the new cell's length prefix is 0
-    (it is sent to clients as a frame) — so the cell is not well-formed (`wf_cell_len_prefix`). -/
-theorem incr_short_operand_props_counterexample :
-    okCellAll (fun c => !lenPrefixOK c && c.data.take 4 == [0,0,0,0] && c.data.length == 19)
-      (runAll cx0 none [[8,0,0,0, 0,0x10, 3,0, 1,0,0, 5], [3,0,0,0, 2,1, 3]]) = true := by
-  decide
-
-/-- SHIFT 4 on the 3-byte value "abc": the interpreter says "", the code panics (clamp against the frame length 9). -/
-theorem shift_beyond_length_counterexample :
-    isPanic (runAll cx0 none [[5,0,0,0, 0,0, 0x61,0x62,0x63], [6,0,0,0, 4,1, 4,0,0,0]]) = true
-    ∧ specRun .none [.set false [0x61,0x62,0x63], .shift 4] = .bytes [] := by
-  decide
-
 /-- PUSH "", PUSH "a", POP 1: the interpreter says ["a"], the code leaves [] (POP skips — and drops — zero-length elements). -/
 theorem pop_zero_length_element_counterexample :
     okVal (runAll cx0 none [[2,0,0,0, 7,0], [3,0,0,0, 7,0, 0x61], [6,0,0,0, 8,1, 1,0,0,0]]) = some (.array [])
     ∧ specRun .none [.push [], .push [0x61], .pop 1] = .array [[0x61]] := by
+  decide
+
+/-! ### the inputs of the repaired defects now agree with the interpreter (regression witnesses, `decide`) -/
+
+/-- SET "abc"; SHIFT 4 leaves "" (was: panic) — commit f7f91cc. -/
+theorem shift_beyond_length_repaired :
+    okVal (runAll cx0 none [[5,0,0,0, 0,0, 0x61,0x62,0x63], [6,0,0,0, 4,1, 4,0,0,0]]) = some (.bytes [])
+    ∧ specRun .none [.set false [0x61,0x62,0x63], .shift 4] = .bytes [] := by
+  decide
+
+/-- INCR with a 1-byte operand on a cell with a property header: value 5+3 and a correct length prefix (was: prefix 0)
+    — commit 0995d27. -/
+theorem incr_short_operand_props_repaired :
+    okCellAll (fun c => lenPrefixOK c && c.data.take 4 == [15,0,0,0] && c.data.length == 19)
+      (runAll cx0 none [[8,0,0,0, 0,0x10, 3,0, 1,0,0, 5], [3,0,0,0, 2,1, 3]]) = true
+    ∧ okVal (runAll cx0 none [[8,0,0,0, 0,0x10, 3,0, 1,0,0, 5], [3,0,0,0, 2,1, 3]]) = some (Val.num 8) := by
+  decide
+
+/-- INCR with a 4-byte operand on a key without value starts the counter at the operand (was: nil dereference)
+    — commit 076286b. -/
+theorem incr_short_operand_no_cell_repaired :
+    okVal (processFrame cx0 none [6,0,0,0, 2,1, 1,0,0,0]) = some (Val.num 1) := by
   decide
 
 /-! hypotheses are satisfiable by non-trivial states -/
